@@ -12,7 +12,7 @@ import os
 import random
 import signal
 import sys
-import threading
+import time
 
 HERE = os.path.dirname(os.path.abspath(__file__))
 sys.path.insert(0, os.path.dirname(HERE))
@@ -776,11 +776,9 @@ def replay(ctx, data):
         return got == data['expected'], f"Sym({data['n']}) constructor accepts {data['value']}: {got}"
     if data.get('kind') == 'c27-exception':
         big = common.Ctx(ctx.property_id, 'quick', data.get('seed', 0))
-        try:
-            globals()[data['phase']](big)
-        except Exception as exc:  # noqa: BLE001
-            return False, f"{data['phase']} raised {type(exc).__name__}: {exc}"
-        return not big.violations, (big.violations[0][0] if big.violations else f"{data['phase']} passes")
+        _in_child(big, data['phase'])
+        bad = [v for v in big.violations if not v[1].get('finding_key')]
+        return not bad, (bad[0][0] if bad else f"{data['phase']} passes")
     try:
         G = make_group(data['group'])
     except Exception as exc:  # noqa: BLE001
@@ -995,15 +993,15 @@ def explore_mod(ctx):
 def _ec_specs(ctx, rng):
     specs = [{'family': 'ec', 'curve': c, 'coords': k} for c, k in BUILTIN_EC]
     tiny = []
-    for p, a, d in tiny_edwards(rng, ctx.scale(4, 16)):
+    for p, a, d in tiny_edwards(rng, ctx.scale(3, 16)):
         pts = orc.ed_all_points(orc.Fp(p), a, d)
         for s in ('ea', 'ep', 'ee'):
             tiny.append(({'family': 'ec_custom', 'sys': s, 'p': p, 'c1': a, 'c2': d, 'order': len(pts)}, pts))
-    for p, a, b, n in tiny_weierstrass(rng, ctx.scale(4, 16), True):
+    for p, a, b, n in tiny_weierstrass(rng, ctx.scale(3, 16), True):
         pts = orc.w_all_points(orc.Fp(p), a, b)
         for s in ('wa', 'wp', 'wj'):
             tiny.append(({'family': 'ec_custom', 'sys': s, 'p': p, 'c1': a, 'c2': b, 'order': n}, pts))
-    for p, a, b, n in tiny_weierstrass(rng, ctx.scale(2, 8), False):  # even order: affine + jacobian
+    for p, a, b, n in tiny_weierstrass(rng, ctx.scale(1, 8), False):  # even order: affine + jacobian
         pts = orc.w_all_points(orc.Fp(p), a, b)
         for s in ('wa', 'wj'):
             tiny.append(({'family': 'ec_custom', 'sys': s, 'p': p, 'c1': a, 'c2': b, 'order': n}, pts))
@@ -1199,7 +1197,8 @@ def _nl(l):
     return ','.join(str(int(v)) for v in l) if len(l) else '-'
 
 
-def correspondence(ctx):
+def correspondence_inputs(ctx):
+    """Request lines for the Lean driver and the real code's answers."""
     rng = ctx.subrng('corr')
     reqs, impl = [], []
 
@@ -1364,25 +1363,17 @@ def correspondence(ctx):
             add(f'cg inv {_nl(e.value)}', lambda e=e: _nl((~e).value))
     for r, i in list(zip(reqs, impl))[:3]:
         ctx.sample({'request': r, 'answer': i})
-    box = {}
+    return reqs, impl
 
-    def work():
-        try:
-            box['out'] = common.LeanDriver('Groups').run(reqs)
-        except Exception as exc:  # noqa: BLE001
-            box['exc'] = exc
-    th = threading.Thread(target=work)
-    th.start()
 
+def correspondence_compare(ctx, reqs, impl):
+    """Evaluate the requests with the Lean model and diff (returns a closure doing the work)."""
     def finish():
-        th.join()
-        if 'exc' in box:
-            raise box['exc']
-        ctx.compare('Groups model vs fingroups', impl, box['out'], reqs)
+        out = common.LeanDriver('Groups').run(reqs)
+        ctx.compare('Groups model vs fingroups', impl, out, reqs)
     return finish
 
 
-# =================================================================================================
 def _guard(ctx, phase):
     """An exception escaping a phase is caused by the code under test (the unchanged tree raises none):
     report it as a violation instead of an infrastructure error."""
@@ -1398,20 +1389,96 @@ def _guard(ctx, phase):
         return None
 
 
+PHASE_TIMEOUT = {'quick': 300, 'thorough': 3600}
+
+
+def _in_child(ctx, phase):
+    """Run one phase in a forked child with a hard wall-clock limit, merge its bookkeeping into ctx.
+
+    A group operation that never returns (possibly inside one huge-integer operation, where Python
+    signal handlers do not run) must not hang the check: the child is killed and the phase is reported
+    as non-terminating.  Returns the phase's return value (must be picklable)."""
+    import pickle
+    rfd, wfd = os.pipe()
+    pid = os.fork()
+    if pid == 0:
+        code = 0
+        try:
+            os.close(rfd)
+            sub = common.Ctx(ctx.property_id, ctx.tier, ctx.seed)
+            ret = _guard(sub, phase)
+            data = pickle.dumps((ret, sub.evaluations, sub.nontrivial, sub.samples, sub.dist,
+                                 sub.violations, sub.mismatches, sub.notes))
+            with os.fdopen(wfd, 'wb') as f:
+                f.write(data)
+        except BaseException:  # noqa: BLE001
+            code = 3
+        os._exit(code)
+    os.close(wfd)
+    import select
+    limit = PHASE_TIMEOUT[ctx.tier]
+    chunks = []
+    t0 = time.time()
+    timed_out = False
+    with os.fdopen(rfd, 'rb') as f:
+        while True:
+            left = limit - (time.time() - t0)
+            if left <= 0:
+                timed_out = True
+                break
+            r, _, _ = select.select([f], [], [], min(left, 5))
+            if r:
+                b = os.read(f.fileno(), 1 << 20)
+                if not b:
+                    break
+                chunks.append(b)
+    if timed_out:
+        try:
+            os.kill(pid, signal.SIGKILL)
+        except OSError:
+            pass
+    os.waitpid(pid, 0)
+    if timed_out:
+        ctx.violation(f'C27 {phase}: did not terminate within {limit} s (a group operation does not return)',
+                      {'kind': 'c27-exception', 'phase': phase, 'seed': ctx.seed})
+        return None
+    try:
+        ret, ev, nt, samples, dist, viol, mism, notes = pickle.loads(b''.join(chunks))
+    except Exception:  # noqa: BLE001
+        raise common.InfraError(f'phase {phase}: child process died without a result')
+    ctx.evaluations += ev
+    ctx.nontrivial |= nt
+    for smp in samples:
+        ctx.sample(smp)
+    for k, v in dist.items():
+        ctx.count(k, v)
+    ctx.violations.extend(viol)
+    ctx.mismatches.extend(mism)
+    ctx.notes.extend(notes)
+    return ret
+
+
 def run(ctx):
-    finish = _guard(ctx, 'correspondence')  # the Lean driver evaluates the model while the oracle part runs
+    # the requests / real-code answers of the correspondence are produced in a child as well; the Lean
+    # driver evaluates the model afterwards
+    corr = _in_child(ctx, 'correspondence_inputs')
+    finish = correspondence_compare(ctx, *corr) if corr else None
     for phase in ('explore_sym', 'explore_mod', 'explore_ec', 'explore_hc', 'explore_cl'):
-        _guard(ctx, phase)
+        _in_child(ctx, phase)
     if finish is not None:
         finish()
+
+
+def correspondence(ctx):
+    return correspondence_compare(ctx, *correspondence_inputs(ctx))
 
 
 def search(ctx):
     """Bigger exploration when the proof or the correspondence broke."""
     big = common.Ctx(ctx.property_id, 'thorough', ctx.seed + 1)
-    for f in (explore_sym, explore_mod, explore_ec, explore_hc, explore_cl):
-        f(big)
-        if big.violations:
+    for phase in ('explore_sym', 'explore_mod', 'explore_ec', 'explore_hc', 'explore_cl'):
+        _in_child(big, phase)
+        if [v for v in big.violations if not v[1].get('finding_key')]:
             break
     ctx.violations.extend(big.violations)
     ctx.evaluations += big.evaluations
